@@ -43,6 +43,8 @@ Why(t, w) ==
   ELSE IF t.outcome # "error" THEN "no error was returned"
   ELSE IF ~t.srcerr THEN "the error is not a SourceError, or output was returned together with it"
   ELSE IF w.line >= 0 /\ t.errline # w.line THEN "LineNumber is not the line on which the failing tag or object begins"
+  ELSE IF "errline2" \in DOMAIN t /\ w.line >= 0 /\ t.errline2 # w.line + 17
+       THEN "parsed again on the same engine 17 lines further down, the error does not carry the new LineNumber"
   ELSE IF t.errpath # Fld(t, "path", <<>>) THEN "Path is not the path the template was parsed with"
   ELSE IF Fld(t, "wantcause", FALSE) /\ ~t.hascause THEN "the wrapped error is not available through Cause"
   ELSE IF "msgok" \in DOMAIN t /\ ~t.msgok THEN "the message does not name the problem"
